@@ -724,7 +724,7 @@ def catalogue_extra(fs):
 
 
 def has_filter(cfg):
-    """a stateful scipy filter somewhere in the chain (a zero-sample draw corrupts its state: scipy quirk, out of scope)"""
+    """a stateful scipy filter somewhere in the chain"""
     return cfg['t'] in ('notch', 'blnoise', 'firnoise', 'shaped') or ('in' in cfg and has_filter(cfg['in']))
 
 
@@ -735,18 +735,19 @@ def kinds_history(cfg, fs, rng, total=None):
     hi = max(B) + 5
     flt = accepts_float(cfg)
     kinds = ['np64', 'np32'] + (['npf', 'pyf'] if flt else [])
-    lo = 1 if has_filter(cfg) else 0
     ops = []
     for rnd in range(2):
         pos = 0
         for _ in range(rng.randint(2, 4)):
-            n = rng.choice([1, 2, 3, rng.randint(lo, max(hi // 2, 1))])
+            n = rng.choice([1, 2, 3, rng.randint(0, max(hi // 2, 1))])
             ops.append(['next', n, rng.choice(kinds) + '+scr'])
             pos += n
             if rng.random() < 0.5:
                 ops.append(['query'])
-        if not has_filter(cfg) and rng.random() < 0.6:
-            ops.append(['rest', 'scr'])          # may be a zero-sample draw: not sent through scipy filters
+        if rnd == 1:
+            ops.insert(len(ops) - 1, ['next', 0, rng.choice(kinds)])     # a zero-sample draw in mid-stream
+        if rng.random() < 0.6:
+            ops.append(['rest', 'scr'])          # a zero-sample draw when everything has been drawn already
             ops.append(['next', 2, 'scr'])
         if rnd == 0:
             ops.append(['reset'])
